@@ -1,5 +1,6 @@
 SPECIFICATION FairSpec
-CONSTANTS Cap = 1  Payload = 0  Variant = "abandon"  Drain = TRUE  CloseAll = TRUE  Timeout = FALSE  Escalate = TRUE  DtorSig = "KILL"  ProgName = "slowexit"
+CONSTANTS Cap = 1  Payload = 0  Variant = "abandon"  Drain = TRUE  CloseAll = TRUE  Timeout = FALSE  Escalate = TRUE  DtorSig = "KILL"  FirstName = "none"  ReapOnAssign = TRUE  ProgName = "slowexit"
 CONSTANT Prog <- MCProg
+CONSTANT FirstProg <- MCFirst
 INVARIANTS OutputComplete StatusExact Reaped AllFdsClosed StdinDelivered NoThrowUnlessEpipe TimeoutEnds
 PROPERTY Termination
